@@ -70,10 +70,20 @@ func (c *matcherCompiler) compileImport(imp *ast.ImportSpec) ImportMatcher {
 // import where the name is a metavariable, then this will match both, named
 // and unnamed imports and record that information in the patch data.
 func (m ImportMatcher) Match(file *ast.File, d data.Data) (_ data.Data, ok bool) {
-	spec := goast.FindImportSpec(file, m.Path)
-	if spec == nil {
-		return d, false
+	// A file may import the same path more than once, under different
+	// names. The import matches if any of them has the requested form.
+	for _, spec := range file.Imports {
+		if goast.ImportPath(spec) != m.Path {
+			continue
+		}
+		if newD, ok := m.matchSpec(spec, d); ok {
+			return newD, true
+		}
 	}
+	return d, false
+}
+
+func (m ImportMatcher) matchSpec(spec *ast.ImportSpec, d data.Data) (_ data.Data, ok bool) {
 
 	// We need to account for four cases here:
 	//
